@@ -19,7 +19,7 @@
 
 use futures::future::FusedFuture;
 use futures::stream::{FusedStream, FuturesUnordered, Stream};
-use futures::{pin_mut, select};
+use futures::{pin_mut, select_biased};
 use nix;
 use nix::errno::Errno;
 use nix::sys::signal::{self, SigHandler, Signal};
@@ -916,11 +916,15 @@ where
 
     let mut next_bg = bg_stream.next();
     loop {
-        select! {
-            x = fg_future => return x,
+        // Finished jobs come first: their results must be recorded (and their
+        // locks released) before the caller decides anything based on
+        // `fg_future` being ready, e.g. whether to start another target or to
+        // block on somebody else's lock.
+        select_biased! {
             _ = next_bg => {
                 next_bg = bg_stream.next();
             }
+            x = fg_future => return x,
         }
     }
 }
